@@ -530,8 +530,10 @@ func (r *Resolver) resolveOneNoCache(ctx context.Context, name, typ string) ([]a
 	var res []any
 	var ttl uint32
 	want := strings.TrimSuffix(name, ".")
-	for _, a := range result.Answer {
-		if ttl == 0 || ttl > a.TTL {
+	for i, a := range result.Answer {
+		// The smallest TTL wins. Zero is a valid TTL (do not cache), not
+		// an unset value.
+		if i == 0 || ttl > a.TTL {
 			ttl = a.TTL
 		}
 		name := strings.TrimSuffix(a.Name, ".")
